@@ -20,7 +20,7 @@ func init() {
 		"the observable event order in running calls; behaviour of user-written interceptors.")
 
 	prop("C19", "Handler panics are converted by WithRecover exactly as configured",
-		[]string{"recover-shape", "recover-installed", "chain-parity", "wrap-once"},
+		[]string{"recover-shape", "recover-installed", "chain-parity", "chain-concat-order", "nil-skipped", "wrap-once"},
 		"In both closures of the interceptor WithRecover installs (unary and streaming handler): the panicked flag protocol (true at the call of next, cleared only on normal return, deferred function registered before next), "+
 			"recover() called directly in the deferred function, the recovery function called exactly once with the recovered value on every flag-true path that is not the abort sentinel (the decision never depends on r != nil, so panic(nil) is covered), "+
 			"its result assigned to the closure's named error result, the sentinel compared with == and re-panicked with the same value, nothing touched on the no-panic path; WithRecover installs that interceptor via WithInterceptors; position among other interceptors follows C16's rules.",
